@@ -345,7 +345,12 @@ class Array:
         For floating point types using a value of float('nan') will count the number of elements that are NaN.
 
         """
-        if math.isnan(value):
+        try:
+            is_nan = math.isnan(value)
+        except TypeError:
+            # str, bytes and Bits values (hex, bin, oct, bytes, bits dtypes) are never NaN
+            is_nan = False
+        if is_nan:
             return sum(math.isnan(i) for i in self)
         else:
             return sum(i == value for i in self)
